@@ -121,10 +121,12 @@ class _add_other:
 @contract(K + ".__mul__", props=["C06", "C14"])
 class _mul:
     def configs():
-        return [{"np": False, "ck": "float"}, {"np": True, "ck": "float"}, {"np": False, "ck": "int"}]
+        return [{"np": False, "ck": "float"}, {"np": True, "ck": "float"}, {"np": False, "ck": "int"},
+                {"np": False, "ck": "npfloat"}, {"np": True, "ck": "npint"}]
 
     def inputs(b):
-        c = b.real("c") if b.cfg.ck == "float" else b.int("c")
+        ck = b.cfg.ck
+        c = b.real("c", np=(ck == "npfloat")) if ck in ("float", "npfloat") else b.int("c", np=(ck == "npint"))
         return dict(self=stats(b, "s", b.cfg.np), other=c)
 
     @ensures("weight_scales")
